@@ -107,6 +107,19 @@ Theorem rdata_eq_iff_canonical_relative : forall a b da db,
 Proof. exact s_eq_iff_fields_relative. Qed.
 Print Assumptions rdata_eq_iff_canonical_relative.
 
+(* down to the sets: two spellings of one record are the same member (duplicates collapse), hash
+   alike and compare as equal *)
+Theorem spellings_of_one_record_collapse : forall a b da db x y,
+  schema_wf (sfs a) = true ->
+  scls a = scls b -> styp a = styp b -> sfs b = sfs a -> slow b = slow a ->
+  valid_fields (sfs a) (svs a) = true -> valid_fields (sfs a) (svs b) = true ->
+  s_digest a None = Ok da -> s_digest b None = Ok db ->
+  vals_ci (slow a) (svs a) (svs b) ->
+  s_abs a = Ok x -> s_abs b = Ok y ->
+  rd_eqb x y = true /\ sadd rd_eqb y [x] = [x] /\ rd_hashkey x = rd_hashkey y /\ rd_cmp x y = 0.
+Proof. exact case_variants_collapse. Qed.
+Print Assumptions spellings_of_one_record_collapse.
+
 (* to_digestable(origin) = RFC 4034 6.2 canonical RDATA (C15's reference), for every origin *)
 Theorem digest_is_rfc4034_canonical : forall r origin fl,
   slow r = DnssecM.rfc_downcased (styp r) -> tf_fields (sfs r) (svs r) = Ok fl ->
